@@ -53,7 +53,7 @@ def main():
                                     'expected': ansatz(p, d, pth, nu, A, B, C), 'expected_x': (p - pth) * d ** nu})
     nplant = 4 if tier == 'quick' else 30
     dsets = [[5, 9, 13], [4, 6, 8], [3, 5, 7], [6, 10, 14], [9, 13, 17, 21], [4, 8, 12]]
-    for pi in range(nplant + 2):
+    for pi in range(nplant + 4):
         pth = rng.choice([0.06, 0.08, 0.1, 0.12, 0.15])
         nu = rng.choice([0.8, 1.0, 1.2])
         A = rng.choice([0.3, 0.35, 0.4])
@@ -71,6 +71,11 @@ def main():
             pth, nu, A, B, C, ds = 0.10, 0.6, 0.3, 0.5, 0.5, [6, 8, 10]
             rates = [round(0.08 + 0.04 * i / 6, 6) for i in range(7)]
             n_trials = 5000
+        if pi >= nplant + 2:
+            # the scan range was guessed before the threshold was known: only ONE scanned rate lies below (above) the threshold
+            pth, nu, A, B, C, ds = 0.10, 1.0, 0.3, 1.0, 0.5, [5, 7, 9]
+            rel = (0.98, 1.22) if pi == nplant + 2 else (0.78, 1.02)
+            rates = [round(pth * (rel[0] + (rel[1] - rel[0]) * i / 8), 6) for i in range(9)]
         if zero_point:
             # a data point with NO observed failure that still lies on the ansatz: the parabola touches zero (A = B^2/4C) at
             # x = -B/2C, reached at the largest distance and the lowest rate
@@ -87,7 +92,7 @@ def main():
         if not ok:
             continue
         plant = {'p_th': pth, 'nu': nu, 'A': A, 'B': B, 'C': C, 'distances': ds, 'rates': rates, 'n_trials': n_trials, 'orders': [],
-                 'shallow': pi == nplant + 1}
+                 'shallow': pi == nplant + 1, 'edge': pi >= nplant + 2}
         for oi, order in enumerate(['sorted', 'shuffled_files', 'paths_list', 'paths_list_reversed']):
             with tempfile.TemporaryDirectory() as tmp:
                 es = [entry(inp, f, n_trials, random.Random(seed * 1000 + pi), sh)[0] for inp, f, sh in entries]
